@@ -137,21 +137,25 @@ theorem parseSource_plain (c : Byte) (r : Bytes) (hp : Plain (c :: r)) :
   simp only [Bool.false_eq_true, if_false]
   have hnill : (t.ty == TT.ILLEGAL) = false := by rw [hty]; rfl
   have hnill2 : (e.ty == TT.ILLEGAL) = false := by rw [hety]; rfl
-  simp only [PS.noteIllegal, PS.cur, PS.peek, List.headD_cons, hnill, hnill2, List.length_cons, List.length_nil,
-    Nat.reduceAdd, Nat.reduceLeDiff, if_true, if_false, ge_iff_le, Nat.le_refl, Bool.false_eq_true]
-  have hfuel : parseFuel [t, e] = 23 + 1 := by simp [parseFuel]
-  rw [hfuel, parseProgramLoop]
+  have hinit : initParser [t, e] 0 = { toks := [t, e] } := by
+    simp [initParser, PS.noteIllegal, PS.cur, PS.peek, hnill, hnill2]
+  rw [hinit]
+  have hfuel : parseFuel [t, e] = 22 + 1 + 1 := by simp [parseFuel]
   have hcur : ({ toks := [t, e] } : PS).curIs .EOF = false := by simp [PS.curIs, PS.cur, hty]
-  have hstmt : parseStatement 23 ({ toks := [t, e] } : PS) = (.html t, { toks := [t, e] }) := by
-    show statementBody (pcalleesAt 22) ({ toks := [t, e] } : PS) = _
+  have hstmt : parseStatement (22 + 1) ({ toks := [t, e] } : PS) = (.html t, { toks := [t, e] }) := by
+    show statementBody (parseExpression 22) (parseExprList 22) (parseBody 22) (parseIfTail 22) (parseSlots 22)
+      ({ toks := [t, e] } : PS) = _
     simp [statementBody, PS.cur, hty]
-  simp only [hcur, Bool.false_eq_true, if_false, hstmt]
   have hill : ({ toks := [t, e] } : PS).curIs .ILLEGAL = false := by simp [PS.curIs, PS.cur, hty]
-  simp only [hill, Bool.false_eq_true, if_false, Stmt.isBad, List.nil_append]
   have hnext : ({ toks := [t, e] } : PS).next = { toks := [e] } := by simp [PS.next]
-  rw [hnext, show (23 : Nat) = 22 + 1 from rfl, parseProgramLoop]
   have hcur2 : ({ toks := [e] } : PS).curIs .EOF = true := by simp [PS.curIs, PS.cur, hety]
-  simp [hcur2]
+  have hloop : parseProgramLoop (parseFuel [t, e]) [] ({ toks := [t, e] } : PS) = (some [.html t], { toks := [e] }) := by
+    rw [hfuel, parseProgramLoop]
+    simp only [hcur, Bool.false_eq_true, if_false, hstmt, hill, Stmt.isBad, List.nil_append, hnext]
+    rw [parseProgramLoop]
+    simp [hcur2]
+  rw [hloop]
+  simp [finishParse, PS.cur]
 
 /-- **plain text renders to itself** (C05): for every byte string without "{{" and without a
     directive keyword after '@' — whatever else it contains: "}}", single braces, backslashes,
